@@ -93,14 +93,14 @@ func (p *payloadRefT) WellFormed(memo string) (bool, string) {
 	if !ok {
 		return false, "no forwarding"
 	}
-	if !enumSupported(firstOf(fw, "protocol_id", "protocolId"), p.enum("noble.orbiter.core.v1.ProtocolID")) {
+	if !enumSupported(firstOf(fw, "protocolId", "protocol_id") /* when both spellings are present the decoder takes the JSON name */, p.enum("noble.orbiter.core.v1.ProtocolID")) {
 		return false, "forwarding protocol id not supported"
 	}
 	if _, ok := fw["attributes"].(map[string]any); !ok {
 		return false, "forwarding attributes missing"
 	}
 	seen := map[int32]bool{}
-	if pa := firstOf(orb, "pre_actions", "preActions"); pa != nil {
+	if pa := firstOf(orb, "preActions", "pre_actions"); pa != nil {
 		arr, ok := pa.([]any)
 		if !ok {
 			return false, "pre_actions is not a list"
@@ -180,6 +180,13 @@ func (p *payloadRefT) checkMsg(obj map[string]any, md protoreflect.MessageDescri
 		}
 		if f.Kind() != protoreflect.MessageKind || v == nil {
 			continue
+		}
+		if string(f.Name()) == k && f.JSONName() != k {
+			if _, both := obj[f.JSONName()]; both {
+				// both spellings of this field are present: the decoder takes the JSON name and never looks at this
+				// member's value (documents spelling a field twice are judged on the decoded value, DESIGN §3/C15)
+				continue
+			}
 		}
 		sub := f.Message()
 		check := func(e any, w2 string) (bool, string) {
